@@ -5,18 +5,18 @@ callback events, the outcome of the call and the goroutine count after a bounded
 `C07.Exec.spec_ok` checks the clauses of the property text on the observation alone, `C07.Exec.model_ok`
 checks (small cases) that the LTS of C07/Model.v has a run with the same observables.
 
-Known-finding classes (see Props.v c07_*_refuted; only generated when KNOWN_FINDINGS.txt has a
-`finding: property=C07 class=<name>` line, so that the unchanged tree exits 0):
-  late_panic      a panic raised after the caller has left its select (after cancel / ctx / a delivered
-                  reducer value) blocks forever in panicChan.write: goroutine leak or hang
-Classes recognised by classify() but never generated on purpose (they need a rare schedule):
-  send_on_closed  finish() between guardedWriter's check and its send on `output` (stop-early reducer that writes
-                  while a mapper cancels / the context ends): "send on closed channel" re-raised or reducer leaked
-  ctx_select_race context done before the call, but the caller's select takes the closed output
+Known-finding classes (KNOWN_FINDINGS.txt; classify() returns a class only when Coq confirms, via Exec.spec_wo_*, that
+the class' clause is the ONLY failing one):
+  reducer_write_then_panic  a panic raised after the reducer's value was handed to the caller is dropped (deterministic;
+                            replay corpus/C07/reducer_write_then_panic.json; Props c07_write_then_panic_refuted)
+  send_on_closed            finish() between guardedWriter's check and its send on `output`: the runtime panic "send on
+                            closed channel" is re-raised in the caller (rare; Props c07_send_on_closed_refuted)
+  ctx_select_race           context done before the call, the caller's select takes the closed output (rare;
+                            Props c07_ctx_result_refuted)
 """
 import os
 
-from vlib import cnat, cbool, clist, copt, cZ, known_findings
+from vlib import cnat, cbool, clist, copt, cZ, canon
 
 ID = "C07"
 GO_PKG = "./lib/mr"
@@ -64,8 +64,8 @@ TRUSTED = ["Go scheduler fairness (a goroutine that can run eventually runs) and
            "observation iff an oracle-guided scheduler finds a model run with the same mapped set, reducer receive "
            "sequence and outcome (sound by Link.model_run_reachable, incomplete by design)"]
 ASSUMPTIONS = ["finish's close(done);close(output) and the other merged adjacent steps listed in Model.v's header are atomic",
-               "stuck-freedom/leak-freedom is proved for the family without panics (c07_no_stuck_partial); it is "
-               "refuted in general (c07_no_leak_refuted, c07_returns_refuted: late panics, reducer send racing with finish)",
+               "stuck-freedom needs: workers >= 1, no mapper that waits for the call's return, at most two reducer writes "
+               "(c07_third_write_refuted shows the third one blocks for ever)",
                "model_ok only for <= 6 items and <= 3 workers; larger cases are checked by spec_ok only"]
 
 FNS = ["MapReduce", "MapReduceVoid", "MapReduceChan", "ForEach", "Finish", "FinishVoid"]
@@ -150,6 +150,13 @@ def gen_cancel(rng, tier, big=False):
             if i > first and rng.random() < 0.25:
                 acts.insert(rng.choice([0, len(acts)]), {"op": "waitret"})
         items.append(acts)
+    if rng.random() < 0.25:
+        # a panic next to the cancel (since d413f58 a late panic neither leaks nor hangs); a mapper that waits for
+        # the return could deadlock with a caller that took the panic arm, so no waitret here
+        for a in items:
+            a[:] = [x for x in a if x["op"] != "waitret"]
+        j = rng.randrange(n)
+        items[j].insert(rng.randint(0, len(items[j])), {"op": "panic", "k": 201})
     if rng.random() < 0.6:
         rtake, rafter = -1, [_w(7)] if (fn != "MapReduceVoid" and rng.random() < 0.5) else []
     else:
@@ -204,6 +211,8 @@ def gen_ctx(rng, tier):
         items[j].append({"op": "cancel", "k": 150})
     if n and rng.random() < 0.2 and ctx == "pre":
         items[rng.randrange(n)].insert(0, {"op": "waitret"})
+    elif n and rng.random() < 0.2:
+        items[rng.randrange(n)].append({"op": "panic", "k": 201})      # late or early panic next to the ctx
     if rng.random() < 0.7:
         rtake, rafter = -1, ([_w(7)] if fn != "MapReduceVoid" and rng.random() < 0.5 else [])
     else:
@@ -223,15 +232,6 @@ def gen_boundary(rng, tier):
     n = rng.randint(17, 24)   # default worker count
     return _case(rng, fn=rng.choice(["MapReduce", "ForEach", "MapReduceVoid"]), noopt=True, items=[[] for _ in range(n)],
                  rtake=-1, rafter=[], cls="boundary")
-
-
-def gen_late_panic(rng, tier):
-    """known-finding class: only generated when registered in KNOWN_FINDINGS.txt"""
-    r = rng.random()
-    if r < 0.5:
-        return _case(rng, items=[[{"op": "cancel", "k": 101}], [{"op": "waitret"}, {"op": "panic", "k": 201}]], workers=2,
-                     rtake=-1, rafter=[], cls="late_panic")
-    return _case(rng, items=[[_w(1)]], workers=2, rtake=0, rafter=[_w(7), {"op": "panic", "k": 201}], cls="late_panic")
 
 
 def drive(cases, tier):
@@ -260,7 +260,6 @@ def generate(rng, tier, n):
 
 def _generate(rng, tier, n):
     cases = []
-    known = known_findings(ID)
     for _ in range(n):
         r = rng.random()
         if r < 0.33:
@@ -276,9 +275,6 @@ def _generate(rng, tier, n):
         else:
             c = gen_boundary(rng, tier)
         cases.append(c)
-    if "late_panic" in known:
-        for _ in range(2):
-            cases.append(gen_late_panic(rng, tier))
     return cases
 
 
@@ -390,7 +386,7 @@ def encode(case, obs):
     return "mkcase %s %s %s %s %s %s %s %s %s (%s) %s %s" % (
         cnat(FNS.index(case["fn"])), cZ(case["workers"]), cbool(bool(case.get("noopt"))),
         clist([clist([_mact(a) for a in it["acts"]]) for it in case["items"]]),
-        _optn(case["gpanic"]), _optn(case["rtake"]), clist([_ract(a) for a in case["rafter"]]), cnat(ctx),
+        _optn(case["gpanic"]), _optn(case["rtake"]), clist([_ract(a) for a in case["rafter"] if a["op"] != "sleep"]), cnat(ctx),
         clist([_ev(e) for e in obs["trace"]]), _out(obs["outcome"]), cnat(obs["leaked"]), cbool(small))
 
 
@@ -428,26 +424,41 @@ def bucket(case, obs):
     return out
 
 
+_MASK = {}
+
+
+def _only_failure(case, obs, check):
+    """True iff every clause of spec_ok other than the one(s) `check` leaves out holds (evaluated by Coq)."""
+    from vlib import coq_eval
+    key = (canon(case), canon(obs), check)
+    if key not in _MASK:
+        try:
+            res = coq_eval(ID, "C07.Exec", [encode(case, obs)], shard=SHARD, checks=(check,), tag="k")
+            _MASK[key] = not res[check]
+        except RuntimeError:
+            _MASK[key] = False
+    return _MASK[key]
+
+
 def classify(case, obs):
-    """late_panic: a scripted panic exists together with something that lets the caller leave its select first,
-    and the observation is a leak or a hang with the panic event in the trace."""
     tr = obs.get("trace", [])
-    panicked = any(e[0] in ("pn", "gp", "rp") for e in tr)
-    bad = obs.get("leaked", 0) > 0 or obs.get("outcome", {}).get("kind") == "hang"
-    other_exit = (any(a["op"] in ("cancel", "cancelnil", "ctxcancel") for it in case["items"] for a in it["acts"])
-                  or case["ctx"] != "none" or any(e[0] == "rw" for e in tr))
-    if panicked and bad and other_exit:
-        return "late_panic"
     out = obs.get("outcome", {})
-    if out.get("kind") == "panic" and out.get("p") == -1:
-        return "send_on_closed"          # finish() between guardedWriter's check and its send (Props: c07_send_on_closed_refuted)
-    if (case["ctx"] == "pre" and out.get("kind") in ("nooutput", "nil") and not obs.get("leaked", 0)
-            and not any(a["op"] in ("cancel", "cancelnil", "panic") for it in case["items"] for a in it["acts"])):
-        return "ctx_select_race"         # the caller's select saw ctx.Done and the closed output (c07_ctx_result_refuted)
-    rws = sum(1 for e in tr if e[0] == "rw")
-    rds = sum(1 for e in tr if e[0] == "rd")
-    if bad and rws > rds and other_exit:
-        return "send_on_closed"
+    kind = out.get("kind")
+    if obs.get("leaked", 0) or kind in ("hang", "other", None):
+        return None
+    acts = [a["op"] for it in case["items"] for a in it["acts"]]
+    cand = None
+    if kind == "panic" and out.get("p") == -1:
+        cand = ("send_on_closed", "spec_wo_outcome")
+    elif kind in ("ret", "twice") and case["ctx"] == "none" and "cancel" not in acts and "cancelnil" not in acts:
+        first_p = next((i for i, e in enumerate(tr) if e[0] in ("pn", "gp", "rp")), None)
+        ret = next((i for i, e in enumerate(tr) if e[0] == "ret"), len(tr))
+        if first_p is not None and first_p < ret and any(e[0] == "rw" for e in tr[:first_p]):
+            cand = ("reducer_write_then_panic", "spec_wo_panic")
+    elif case["ctx"] == "pre" and kind in ("nooutput", "nil"):
+        cand = ("ctx_select_race", "spec_wo_ctx")
+    if cand and _only_failure(case, obs, cand[1]):
+        return cand[0]
     return None
 
 
